@@ -175,10 +175,34 @@ def run_one(out, drv, facts, prog, checker, rng, tag):
                        {"program": small, "impl": gg, "model": ww})
 
 
+def toggle_programs():
+    """the disable switch changes while a context block is open (a helper that silences checking for a section, a block
+    left by an exception before the switch is restored): a block still ends exactly the context it opened"""
+    a = gen_prog.arr_type
+    v = gen_prog.arr_val
+    chk = lambda d, s: {"op": "check", "l": a(d), "x": v(s)}  # noqa: E731
+    P_ = {"op": "print"}
+    on, off = {"op": "disable", "v": True}, {"op": "disable", "v": False}
+    outer = lambda body: [{"op": "call", "kind": "none", "params": [{"name": "x", "ty": a("n"), "val": v([3])}], "ret": None, "bindok": True,  # noqa: E731
+                           "notc": False, "body": body, "exit": "ret"}, off, P_, chk("n", [9]), P_]
+    return [
+        outer([P_, {"op": "ctx", "body": [chk("n", [4]), on], "exit": "ret"}, off, P_, chk("n", [3]), chk("n", [4]), P_]),
+        outer([P_, on, {"op": "ctx", "body": [off, chk("n", [4]), P_], "exit": "ret"}, P_, chk("n", [3]), chk("n", [4]), P_]),
+        outer([{"op": "ctx", "body": [chk("n", [4]), on], "exit": "exc"}, off, P_, chk("n", [3]), P_]),
+        [{"op": "ctx", "body": [chk("n", [4]), on, {"op": "ctx", "body": [chk("n", [5]), off], "exit": "ret"}, P_, chk("n", [4])], "exit": "ret"}, off, P_, chk("n", [7]), chk("n", [8]), P_],
+        [on, {"op": "ctx", "body": [chk("n", [4]), P_], "exit": "ret"}, off, P_, chk("n", [7]), chk("n", [8]), P_],
+    ]
+
+
 def run(tier, seed, out, drv, facts):
     rng = Rng(seed, "C05")
     thorough = tier == "thorough"
     generator_cases(out)
+    for prog in toggle_programs():
+        try:
+            run_one(out, drv, facts, prog, "typeguard", rng, "toggle")
+        finally:
+            jaxtyping.config.update("jaxtyping_disable", False)
     n = 40000 if thorough else 500
     for i in range(n):
         depth = rng.rng(1, 5 if thorough else 3)
